@@ -116,7 +116,9 @@ impl RoutingTable {
 
         for bucket in self.buckets.values() {
             for node in &bucket.nodes {
-                closest.add(node.clone());
+                // Members were vetted by `Self::add`; re-applying the same-IP rule in
+                // bucket order could shadow a secure member by an insecure one on its IP.
+                closest.insert(node.clone());
             }
         }
 
@@ -128,7 +130,7 @@ impl RoutingTable {
         let mut closest = ClosestNodes::new(target);
 
         for node in self.nodes() {
-            closest.add(node);
+            closest.insert(node);
         }
 
         closest
